@@ -345,12 +345,12 @@ SskrJoinRegsA == \E dst \in Reg : \E rs \in {<<a>> : a \in Full} \cup {<<x[1], x
 
 (* ---- proofs ----------------------------------------------------------------------------------*)
 ProofA == \E dst \in Reg, src \in Full :
-              \E T \in {S \in SUBSET Targets(reg[src]) : S # {} /\ Cardinality(S) <= MaxT} :
+              \E T \in {S \in SUBSET Targets(reg[src]) : Cardinality(S) <= MaxT} :   \* the empty set included
               LET p == ProofContainsSet(reg[src], T) IN
               Call("proof_contains_set", dst, <<src, T>>, IF p = Nothing THEN Err("none") ELSE Ok(p))
 (* a verifier holding only the root digest of r1 is shown r2 as a proof for T *)
 ObsConfirm == \E r1 \in Full, r2 \in Full :
-              \E T \in {S \in SUBSET (Targets(reg[r1]) \cup AllDigests(reg[r2])) : S # {} /\ Cardinality(S) <= MaxT} :
+              \E T \in {S \in SUBSET (Targets(reg[r1]) \cup AllDigests(reg[r2])) : Cardinality(S) <= MaxT} :
               Observe("obs_confirm", <<r1, r2, T>>,
                       [ accept |-> (reg[r2] = ProofContainsSet(reg[r1], T)) \/ ConfirmContainsSet(reg[r1], T, reg[r2]),
                         produced |-> reg[r2] = ProofContainsSet(reg[r1], T),
